@@ -413,6 +413,9 @@ func MetaDataKVHandler(resHolder *SearchResult, attrGetter AttributeGetter, addi
 					matches = matchValues(checkedDBVal, mch, fltVal)
 				}
 				if !matches {
+					if i > 0 { // only the primary filter and upper bounds may end the scan
+						return mch != object.MatchNumLT && mch != object.MatchNumLE
+					}
 					if mch != object.MatchStringNotEqual && (wasPrimMatch || mch != object.MatchNumGT) {
 						return false
 					}
